@@ -314,6 +314,14 @@ func (t *T) assign(at ast.Node, lhs, rhs []ast.Expr, e *env, ind string, k K) st
 					return t.bindValues(at, lhs, append([]string{}, vs...), append([]string{}, gs...), e2, ind2, k)
 				})
 			}
+			if cs := t.calls[fkey]; cs != nil && len(cs.Sets) > 0 && t.lookupAtom(canon(c)) == nil {
+				// a call that also assigns state places: values and new state are read before the call
+				t.allowSets = true
+				vs, gs := t.call(c, e)
+				t.allowSets = false
+				pre, e2 := t.applySets(c, cs, e, ind)
+				return pre + t.bindValues(at, lhs, append([]string{}, vs...), append([]string{}, gs...), e2, ind, k)
+			}
 			vals, gtys = t.call(c, e)
 			vals, gtys = append([]string{}, vals...), append([]string{}, gtys...)
 			fromTable = true
@@ -428,6 +436,30 @@ func (t *T) bindValuesOpt(at ast.Node, lhs []ast.Expr, vals, gtys []string, para
 	return pre + run(0, e, ind)
 }
 
+// applySets binds the new values of the state places a table call assigns (CallSpec.Sets, in the order of
+// the spec's state list); every term is read in the environment before the call.
+func (t *T) applySets(c *ast.CallExpr, cs *CallSpec, e *env, ind string) (string, *env) {
+	for place := range cs.Sets {
+		if _, ok := t.stIndex[place]; !ok {
+			t.stopf(c, "spec: call %q sets %q, which is not a state place of the target", cs.Go, place)
+		}
+	}
+	e2 := e.clone()
+	pre := ""
+	for i, n := range t.stNames {
+		for place, term := range cs.Sets {
+			if t.stIndex[place] != i {
+				continue
+			}
+			v := t.subst(c, substArgs(term, func(j int) string { return t.argTerm(c, j, e) }), e)
+			fn := t.fresh(n)
+			e2.st[i] = fn
+			pre += ind + "let " + fn + " := " + v + " in\n"
+		}
+	}
+	return pre, e2
+}
+
 // popStream: `lhs... = oracle()`: take the next scripted result.
 func (t *T) popStream(at ast.Node, si int, lhs []ast.Expr, e *env, ind string, k K) string {
 	var sv *StreamVar
@@ -518,9 +550,17 @@ func (t *T) returnStmt(x *ast.ReturnStmt, e *env, ind string) string {
 		if !ok {
 			t.stopf(x, "return of one expression for %d results", len(t.goResG))
 		}
+		cs := t.calls[canon(c.Fun)]
+		hasSets := cs != nil && len(cs.Sets) > 0 && t.lookupAtom(canon(c)) == nil
+		t.allowSets = hasSets
 		vals, _ := t.call(c, e)
+		t.allowSets = false
 		if len(vals) != len(t.goResG) {
 			t.stopf(x, "return of a call with %d values for %d results", len(vals), len(t.goResG))
+		}
+		if hasSets {
+			pre, e2 := t.applySets(c, cs, e, ind)
+			return pre + ind + t.result(vals, e2, "ExReturn")
 		}
 		rets = vals
 	} else {
